@@ -6,7 +6,7 @@ PROP = {
     "allowed_axioms": [],
     "harness": "c16",
     "modelrun": {"name": "c16", "extracted": ["c16_model"], "driver": "ocaml/c16/c16_run.ml"},
-    "tiers": {"quick": {"cases": 30000}, "thorough": {"cases": 250000}},
+    "tiers": {"quick": {"cases": 24000}, "thorough": {"cases": 250000}},
     "search_cases": 60000,
     "rule": "byte strings from a BGP message grammar (OPEN with capabilities, UPDATE with every attribute type, "
             "MP_REACH/MP_UNREACH, add-path, labels, NOTIFICATION, KEEPALIVE), mutated length fields / prefix lengths / "
